@@ -84,11 +84,16 @@ func (l *c19Link) hangUp() {
 		l.pipe.hangUp()
 		return
 	}
-	l.mu.Lock()
-	c := l.conn
-	l.mu.Unlock()
-	if c != nil {
-		c.Close()
+	// natively the node may not have dialled yet: the peer closes the connection once it exists
+	for i := 0; i < 100; i++ {
+		l.mu.Lock()
+		c := l.conn
+		l.mu.Unlock()
+		if c != nil {
+			c.Close()
+			return
+		}
+		time.Sleep(20 * time.Millisecond)
 	}
 }
 
@@ -103,6 +108,8 @@ type c19World struct {
 	links int
 	txs   map[bitcoin.Hash32]*wire.MsgTx // transactions the peer can serve
 	seen  []wire.Message                 // everything the node has sent, in order
+	ticks     int
+	pingEvery int // the peer pings every so many ticks (0: never)
 }
 
 // connectPeer prepares the peer's end of the NEXT connection the node will open.
@@ -141,6 +148,10 @@ func (w *c19World) connectPeer() {
 
 // tick lets the node run at the current instant, plays the peer's part, and lets d pass.
 func (w *c19World) tick(d time.Duration) {
+	w.ticks++
+	if w.pingEvery > 0 && w.ticks%w.pingEvery == 0 {
+		w.link.toNode(wire.NewMsgPing(uint64(w.ticks))) // a Bitcoin node shows activity
+	}
 	verifrt.Quiesce()
 	for _, m := range w.link.fromNode() {
 		w.seen = append(w.seen, m)
@@ -168,10 +179,6 @@ func (w *c19World) tick(d time.Duration) {
 	w.peer.toNode = nil
 	verifrt.Quiesce()
 	time.Sleep(d)
-	if !verifrt.Symbolic() {
-		// files under a property's native time seam read the harness clock: keep it in step
-		verifrt.Advance(d)
-	}
 }
 
 func (w *c19World) announceTx(tx *wire.MsgTx) {
@@ -183,6 +190,7 @@ func (w *c19World) announceTx(tx *wire.MsgTx) {
 }
 
 func c19NewWorld(ctx context.Context) (*c19World, *vkStore, config.Config) {
+	verifrt.RealTime() // natively the regenerated time seam (if any) follows the wall clock
 	store := newVkStore()
 	probe, perr := vkNewNode(ctx, nil)
 	verifrt.Assert(perr == nil, "C19.kit.node-loads")
